@@ -5,19 +5,7 @@
  * implied by the full contracts in contracts/thread_queue.h. */
 #ifndef VF_TQ_THIN
 #define VF_TQ_THIN
-enum { VF_OP_NONE, VF_OP_PUSH_TAIL, VF_OP_PUSH_HEAD, VF_OP_POP_HEAD, VF_OP_POP_TAIL, VF_OP_REMOVE };
-int vf_need_lock;             /* the access mode is a shared one */
-unsigned vf_ops;              /* number of queue operations so far */
-int vf_last_kind;             /* kind of the last operation */
-const void *vf_last_q;        /* queue of the last operation */
-const void *vf_last_thread;   /* node pushed / removed by the last operation */
-unsigned vf_k;                /* ghost index: "the vf_k-th operation" */
-const void *vf_kth_thread;    /* node pushed / popped by operation number vf_k */
-int vf_kth_kind;
-unsigned vf_t_lastop;         /* clock of the last operation */
-ABTI_thread *vf_pop_ret;      /* what the queue hands back (arbitrary) */
-int vf_remove_ret;
-unsigned vf_live_pops;        /* pops that handed back a node */
+#include "contracts/thread_queue_ghost.h"
 
 #define TQ_THIN_COMMON(KIND, NODE)                                             \
     __CPROVER_requires(vf_need_lock ==> (vf_lock_held == 1))                   \
@@ -56,7 +44,6 @@ __CPROVER_ensures(__CPROVER_return_value == vf_remove_ret && (vf_remove_ret == A
 
 /* returns 0 => the caller holds the lock; 1 => is_empty was observed set at
  * some instant of the call and the lock is not held */
-int vf_saw_empty;
 static inline int thread_queue_acquire_spinlock_if_not_empty(thread_queue_t *p_queue, ABTD_spinlock *p_lock)
 __CPROVER_requires(vf_lock_held == 0)
 __CPROVER_assigns(vf_lock_held, vf_lock_which, vf_acquires, vf_clock, vf_t_acquire, vf_saw_empty)
@@ -64,4 +51,14 @@ __CPROVER_ensures(__CPROVER_return_value == 0 || __CPROVER_return_value == 1)
 __CPROVER_ensures(__CPROVER_return_value == 0 ==> (vf_lock_held == 1 && vf_lock_which == p_lock && vf_acquires == __CPROVER_old(vf_acquires) + 1 && vf_saw_empty == __CPROVER_old(vf_saw_empty) &&
     vf_clock == __CPROVER_old(vf_clock) + 1 && vf_t_acquire == vf_clock))
 __CPROVER_ensures(__CPROVER_return_value == 1 ==> (vf_lock_held == 0 && vf_saw_empty == 1 && vf_acquires == __CPROVER_old(vf_acquires) && vf_clock == __CPROVER_old(vf_clock)));
+#endif
+
+/* is_empty read without the lock (fifo_wait.c): arbitrary answer (other threads
+ * push and pop), a TRUE answer is recorded */
+#ifdef VF_TQ_THIN_IS_EMPTY
+static inline ABT_bool thread_queue_is_empty(const thread_queue_t *p_queue)
+__CPROVER_assigns(vf_saw_empty)
+__CPROVER_ensures(__CPROVER_return_value == ABT_TRUE || __CPROVER_return_value == ABT_FALSE)
+__CPROVER_ensures(__CPROVER_return_value == ABT_TRUE ==> vf_saw_empty == 1)
+__CPROVER_ensures(__CPROVER_return_value == ABT_FALSE ==> vf_saw_empty == __CPROVER_old(vf_saw_empty));
 #endif
